@@ -123,8 +123,20 @@ class ChargeMonitor(Base):
         self.sc = sc = scales_for(solver)
         self.terms = {}
         touched = np.zeros(g.n, dtype=int)
-        for ti in solver.device.terminal_info():
-            eidx = g.bidx[np.asarray(ti.boundary_edge_indices, dtype=int)]
+        # terminal boundary edges determined independently: boundary edges of the mesh in use whose
+        # centre lies inside the terminal polygon (winding number), cross-checked with terminal_info()
+        info = {ti.name: ti for ti in solver.device.terminal_info()}
+        bcent = sc.xi_mag * g.centers[g.bidx]
+        for term in solver.device.terminals:
+            wn, dist = geom.winding_number(bcent, term.points)
+            eidx = g.bidx[wn != 0]
+            self.count("terminal_membership_checks")
+            ti = info.get(term.name)
+            theirs = None if ti is None else np.sort(g.bidx[np.asarray(ti.boundary_edge_indices, dtype=int)])
+            ambiguous = bool(np.any(dist < 1e-9 * sc.xi_mag))
+            if not ambiguous and (theirs is None or not np.array_equal(theirs, np.sort(eidx))):
+                self.viol("terminal_membership_mismatch", "terminal_info_inconsistent_with_mesh",
+                          {"terminal": term.name, "edges_inside_polygon": int(len(eidx)), "edges_in_terminal_info": None if theirs is None else int(len(theirs))})
             Lphys = float(g.elen[eidx].sum() * sc.xi_mag)
             coef = np.zeros(g.n)
             for k in eidx:
@@ -133,7 +145,7 @@ class ChargeMonitor(Base):
                 coef[j] += g.elen[k] / 2
             cells = np.where(coef > 0)[0]
             touched[cells] += 1
-            self.terms[ti.name] = dict(coef=coef * sc.J_scale / Lphys, cells=cells, L=Lphys, nedges=len(eidx))
+            self.terms[term.name] = dict(coef=coef * sc.J_scale / Lphys, cells=cells, L=Lphys, nedges=len(eidx))
         self.shared = touched > 1
 
     def expected(self, t):
@@ -192,12 +204,38 @@ class StepOracle(Base):
         super().__init__()
         self.every = every
         self.k = 0
+        self.last_ok = None
 
     def on_spsq(self, ctx, kw, res):
         self.k += 1
+        if res is not None:
+            self.last_ok = (float(kw["dt"]), np.array(res[0], copy=True))
         if self.k % self.every and res is not None:
             return
         check_spsq(self, kw, res, where={"step": None if ctx is None else ctx["step"]})
+
+    def on_update_begin(self, ctx):
+        self.last_ok = None
+
+    def on_update_end(self, ctx, res, exc):
+        # the step reported by update (dt, psi) must be the one that was answered by the accepted solve
+        if res is None or self.last_ok is None:
+            return
+        self.count("reported_step_checks")
+        if ctx["refusals"]:
+            self.count("retried_steps_checked")
+        dt_ok, psi_ok = self.last_ok
+        if float(res.dt) != dt_ok:
+            self.viol("reported_dt_not_the_solved_dt", "answered_step_not_solution_for_reported_dt",
+                      {"step": ctx["step"], "reported_dt": float(res.dt), "dt_of_accepted_solve": dt_ok, "refusals": ctx["refusals"]})
+        fixed = getattr(ctx["solver"], "fixed_psi_sites", None)
+        a, b = np.asarray(res.psi), psi_ok
+        if fixed is not None:
+            mask = np.ones(len(a), dtype=bool)
+            mask[np.asarray(fixed)] = False
+            a, b = a[mask], b[mask]
+        if not np.array_equal(a, b):
+            self.viol("reported_psi_not_the_solved_psi", "answered_step_not_solution_for_reported_dt", {"step": ctx["step"], "max_abs_diff": float(np.max(np.abs(a - b)))})
 
 
 def fp_events(kw, lap):
